@@ -18,6 +18,8 @@ def pytest_runtest_teardown(item, nextitem):
                 if isinstance(o, gtirb.IR):
                     r = faults.coherence_record(gtirb, o, try_save=False)
                     r["clauses"] = ["Forest", "Cache", "Bytes"]
+                    r["pv"] = r["version"]      # not from a file: no header / version rule to apply
+                    r["head"] = [71, 84, 73, 82, 66, 0, 0, r["pv"]]
                     r["test"] = item.nodeid
                     fh.write(json.dumps(r) + "\n")
                     seen += 1
